@@ -593,11 +593,7 @@ theorem fillBids_deltas {s s' : KState} {m c seller : Addr} {ids : List Nat} {ta
   simp only [ne_eq, Decidable.not_not] at htot
   split at h; · simp at h
   rename_i ratioFees hrf
-  unfold KState.close at h
-  split at h; · simp at h
-  rename_i L hL
-  simp only [Except.ok.injEq] at h
-  subst h
+  obtain ⟨L, hL, rfl⟩ := close_unfold h
   obtain ⟨ex, hex, rfl⟩ := closeSettlement_unfold hL
   dsimp only at hex ⊢
   have hta : ∀ d, amountOf ta d = (orders.map fun o => if o.assetsDenom = d then o.assets else 0).sum := by
@@ -680,11 +676,7 @@ theorem fillAsks_deltas {s s' : KState} {m c buyer : Addr} {ids : List Nat} {tp 
   simp only [ne_eq, Decidable.not_not] at htot
   split at h; · simp at h
   rename_i ratioFees hrf
-  unfold KState.close at h
-  split at h; · simp at h
-  rename_i L hL
-  simp only [Except.ok.injEq] at h
-  subst h
+  obtain ⟨L, hL, rfl⟩ := close_unfold h
   obtain ⟨ex, hex, rfl⟩ := closeSettlement_unfold hL
   dsimp only at hex ⊢
   have htp : ∀ d, amountOf [(td, tv)] d = (orders.map fun o => if o.priceDenom = d then o.price else 0).sum := by
@@ -890,11 +882,7 @@ theorem settleOrders_covered {s s' : KState} {m c : Addr} {a b : List Nat} {ep :
     split at h; · simp at h
     rename_i hep
     simp only [ne_eq, Decidable.not_not] at hep
-    unfold KState.close at h
-    split at h; · simp at h
-    rename_i L hL
-    simp only [Except.ok.injEq] at h
-    subst h
+    obtain ⟨L, hL, rfl⟩ := close_unfold h
     refine ⟨asks, bids, st, L, ha, hb, hst, hep, hL, rfl, ?_, ?_⟩
     · intro o ho
       rcases List.mem_append.mp ho with h' | h'
